@@ -69,6 +69,18 @@ Theorem C15_subsystem_validates_grouped : forall p real ghost d,
           p_c := zsum (map (fc_at p) real); p_m := 1 + zsum (map (fun f => fm_at p f - 1) real) |}.
 Proof. exact subsystem_validates. Qed.
 
+(** The same for group_fragments=False, where no totals are handed over: the constructor's search settles on the sum
+    of the fragment charges and the high-spin multiplicity.  [contiguous d] (the new fragments are consecutive and in
+    order — true for parents whose own fragments are, as validation makes them) is what from_schema checks first. *)
+Theorem C15_subsystem_validates_ungrouped : forall p real ghost d,
+  disjoint_frags p -> (forall i, In i (List.concat (p_frags p)) -> (i < List.length (p_atoms p))%nat) ->
+  get_fragment p real ghost false = Ok d -> contiguous d = true ->
+  (forall f, In f (chosen_list p real ghost) -> memb f real = true -> valid_frag p f /\ all_real p f) ->
+  sub_molecule p real ghost false
+  = Ok {| p_atoms := d_atoms d; p_frags := d_frags d; p_fc := d_fc d; p_fm := d_fm d;
+          p_c := zsum (d_fc d); p_m := hss (d_fm d) |}.
+Proof. exact subsystem_validates_ungrouped. Qed.
+
 (** Electron counts: per fragment the real nuclear charge minus the fragment charge; they add up to the molecule's
     count, which is the real nuclear charge minus the total charge. *)
 Theorem C15_electrons_per_fragment : forall p k, partition_ok p ->
@@ -94,6 +106,15 @@ Theorem C15_nre_sum_invariant : forall (g : Z * Q -> Q) l l', Permutation l l' -
   (qsum g (terms_from [] l) == qsum g (terms_from [] l'))%Q.
 Proof. intros g l l' P. apply qsum_perm. apply nre_reorder_invariant. exact P. Qed.
 
+(** The comparison of the implementation's float with the exact terms uses, per term, the rational pair
+    (lo, hi) = inv_sqrt_lo_hi d2; it encloses 1/sqrt(d2): lo^2·d2 <= 1 <= hi^2·d2 with 0 < lo <= hi (for d2 >= 1e-60), so
+    [nre_enclosure] = (sum w·lo, sum w·hi) brackets sum w/sqrt(d2) for non-negative weights. *)
+Theorem C15_nre_inv_sqrt_enclosure : forall d2 : Q, 0 < Qnum d2 -> 1 <= Qnum d2 * 10 ^ 60 / Zpos (Qden d2) ->
+  (0 < fst (inv_sqrt_lo_hi d2))%Q /\ (fst (inv_sqrt_lo_hi d2) <= snd (inv_sqrt_lo_hi d2))%Q
+  /\ (fst (inv_sqrt_lo_hi d2) * fst (inv_sqrt_lo_hi d2) * d2 <= 1)%Q
+  /\ (1 <= snd (inv_sqrt_lo_hi d2) * snd (inv_sqrt_lo_hi d2) * d2)%Q.
+Proof. exact inv_sqrt_enclosure. Qed.
+
 (** The formula lists every distinct (title-cased) symbol exactly once with its number of occurrences, in
     alphabetical order, or in Hill order (C, then H, then the rest alphabetically) when carbon is present. *)
 Theorem C15_formula_counts : forall o syms,
@@ -108,6 +129,26 @@ Theorem C15_formula_ordered : forall syms,
       exists rest, sorted rest /\ ~ In "C"%string rest /\ ~ In "H"%string rest
         /\ element_order Hill syms = "C"%string :: (if has "H" (map title syms) then ["H"%string] else []) ++ rest).
 Proof. exact formula_ordered. Qed.
+
+(** String level: reading the formula back (the two regular expressions of order_molecular_formula) returns exactly
+    the (symbol, count) items, for symbols written as an upper-case letter followed by characters that are neither
+    upper-case nor digits — which is how title() writes every non-empty alphabetic symbol. *)
+Theorem C15_formula_parse_roundtrip : forall o syms, Forall wf_sym (map title syms) ->
+  parse_items (formula o syms) None = formula_items o syms.
+Proof. exact parse_formula_roundtrip. Qed.
+Theorem C15_title_wellformed : forall s, s <> EmptyString -> all_cased s -> wf_sym (title s) /\ title (title s) = title s.
+Proof. intros s N C. split; [apply title_wf; assumption|apply title_idem]. Qed.
+
+(** The formula depends on the symbols only through the counts of their title-cased forms; and
+    order_molecular_formula applied to a formula written here gives the formula of the same symbols in the requested
+    order (so re-ordering into the same order is the identity, and alphabetical -> hill -> alphabetical returns). *)
+Theorem C15_formula_ext : forall o syms syms',
+  (forall k, count_in k (map title syms) = count_in k (map title syms')) -> formula o syms = formula o syms'.
+Proof. exact formula_ext. Qed.
+Theorem C15_order_formula_consistent : forall o o' syms name,
+  Forall wf_sym (map title syms) -> parse_order name = Ok o ->
+  order_formula (formula o' syms) name = Ok (formula o syms).
+Proof. exact order_formula_of_formula. Qed.
 
 (** Non-vacuity: He | @Ne H (+1) | Li O (-1); extraction of ([2,0] real, [1] ghost) in both paths. *)
 Definition mk (s : string) (z : Z) (x y zc : Z) (r : bool) : atom :=
@@ -143,18 +184,35 @@ Example C15_ex_formula :
   formula Hill ["h"; "C"; "CL"; "H"; "c"; "H"; "O"; "Ca"]%string = "C2H3CaClO"%string
   /\ formula Alphabetical ["h"; "C"; "CL"; "H"; "c"; "H"; "O"; "Ca"]%string = "C2CaClH3O"%string
   /\ formula Hill ["H"; "Cl"]%string = "ClH"%string
-  /\ parse_items "C2H3CaClO" None = formula_items Hill ["h"; "C"; "CL"; "H"; "c"; "H"; "O"; "Ca"]%string.
+  /\ parse_items "C2H3CaClO" None = formula_items Hill ["h"; "C"; "CL"; "H"; "c"; "H"; "O"; "Ca"]%string
+  /\ order_formula "C2H3CaClO" "Alphabetical" = Ok "C2CaClH3O"%string
+  /\ order_formula "C12x3H2" "hill" = Ok "C12H2"%string /\ order_formula "h2" "hill" = Err PyValueError.
 Proof. repeat split; vm_compute; reflexivity. Qed.
+Example C15_ex_wf : Forall wf_sym (map title ["h"; "C"; "CL"; "Ca"]%string) /\ all_cased "CL" /\ parse_order "HILL" = Ok Hill.
+Proof. split; [repeat constructor|split; [repeat constructor|reflexivity]]. Qed.
+Example C15_ex_ungrouped : exists d, get_fragment ex_p [2; 0]%nat [1]%nat false = Ok d /\ contiguous d = true
+  /\ (forall f, In f (chosen_list ex_p [2; 0]%nat [1]%nat) -> memb f [2; 0]%nat = true -> valid_frag ex_p f /\ all_real ex_p f).
+Proof.
+  eexists. split; [vm_compute; reflexivity|]. split; [vm_compute; reflexivity|].
+  intros f Hf M. vm_compute in Hf. destruct Hf as [<-|[<-|[<-|[]]]]; try (vm_compute in M; discriminate M);
+    (split; [repeat split; try (vm_compute; congruence); try (vm_compute; reflexivity); repeat constructor; vm_compute; congruence|repeat constructor]).
+Qed.
 
 Print Assumptions C15_atoms_conserved_grouped.
 Print Assumptions C15_atoms_conserved_ungrouped.
 Print Assumptions C15_fragment_bookkeeping.
 Print Assumptions C15_subsystem_validates_grouped.
+Print Assumptions C15_subsystem_validates_ungrouped.
 Print Assumptions C15_electrons_per_fragment.
 Print Assumptions C15_electrons_additive.
 Print Assumptions C15_nre_real_only.
 Print Assumptions C15_nre_rigid_invariant.
 Print Assumptions C15_nre_reorder_invariant.
 Print Assumptions C15_nre_sum_invariant.
+Print Assumptions C15_nre_inv_sqrt_enclosure.
 Print Assumptions C15_formula_counts.
 Print Assumptions C15_formula_ordered.
+Print Assumptions C15_formula_parse_roundtrip.
+Print Assumptions C15_title_wellformed.
+Print Assumptions C15_formula_ext.
+Print Assumptions C15_order_formula_consistent.
